@@ -177,6 +177,11 @@ end JPV.Impl
 
 namespace JPV.Impl
 
+theorem reKeyword_pos {kw : List Char} (hk : 0 < kw.length) : ScanPos (reKeyword kw) := by
+  intro s k h
+  obtain ⟨rfl, _⟩ := reKeyword_some h
+  exact hk
+
 theorem Lexer.acceptMatch_lt {l l' : Lexer} {re : List Char → Option Nat} (hre : ScanPos re)
     (h : l.acceptMatch re = some l') : l.pos < l'.pos ∧ l'.q = l.q := by
   obtain ⟨k, hk, hp, hq⟩ := Lexer.acceptMatch_pos h
@@ -185,7 +190,7 @@ theorem Lexer.acceptMatch_lt {l l' : Lexer} {re : List Char → Option Nat} (hre
 
 macro "scan_pos" : tactic => `(tactic| first
   | exact reProperty_pos | exact reIndex_pos | exact reInt_pos | exact reFloat_pos
-  | exact reFunctionName_pos)
+  | exact reFunctionName_pos | exact reKeyword_pos (by decide))
 
 open Lean Elab Tactic in
 /-- derive pointer facts from every hypothesis about a helper call -/
